@@ -110,6 +110,10 @@ FIXED = [
     ("C04", "0f614d1", "`1\u00b2` let a Python ValueError escape eval, `\u0663 + 1` was 4, `/a{\u0663}/` a counted quantifier, `parseFloat('\u0663.5')` 3.5: digits selected with str.isdigit() and parsed by int()/float()"),
     ("C18", "481c111", "`(2**60).toString()` printed 1152921504606846976 (ECMAScript: 1152921504606847000), `(1e21).toString()` 22 digits, `(1e-7).toString()` the host spelling 1e-07: a private decimal path built on str()/int()"),
     ("C16", "7bdc03d", "`'abc'.startsWith('c', -1)` was true, `'abc'.includes('a', -1)` false, `'abc'.lastIndexOf('a', -5)` -1, `'abc'.indexOf('', 10)` -1: script positions used as Python slice bounds while negative / unclamped"),
+    ("C06", "17cfa3c", "`9007199254740992 + 1` was 9007199254740993, the literal 9007199254740993 differed from 9007199254740992, `(9007199254740992 + 1) % 2` was 1: whole numbers held as unbounded host ints"),
+    ("C06", "06107d4", "`1 / (-5 % 5)` was Infinity: the integer remainder path negated an int zero"),
+    ("C16", "23541d6", "`'\ufeffa'.trim().length` was 2 and `'\x1ca'.trim().length` 1, `parseFloat('\x1c1.5')` 1.5: str.strip() with the host's white-space set"),
+    ("C17", "d7ced48", "`[NaN].includes(NaN)` was false: includes compared with strict equality instead of SameValueZero"),
 ]
 
 
